@@ -71,7 +71,9 @@ def is_counter(ip, rec, hv):
 
 
 def loop_domain(ip, rec):
-    """(position variable, domain term, entry position) of the iterator that drives the loop, or None"""
+    """(position variable, domain term, entry position, end) of what drives the loop, or None: the iterator whose
+    position advances by one, else an index variable i counting up by one under a test  i < B  with B unchanged by the
+    loop (`while i < n`), whose domain is range(entry, B)"""
     from . import stdsum
     for hv, ev in rec['mapping']:
         it0 = ip.iter_heads.get(hv)
@@ -83,7 +85,19 @@ def loop_domain(ip, rec):
             dom = stdsum.iter_domain(ip, rec['snapshot'], it0)
         except Exception:
             continue
-        return hv, dom, ev
+        return hv, dom, ev, it0.end
+    hi = (rec['head'], rec['inst'])
+    base = set(rec['snapshot'].pc)
+    for hv, ev in rec['mapping']:
+        if hv[0] != 'var' or T.TYPES.get(hv) not in ('usize', 'u32', 'u64') or hv in ip.iter_heads or not is_counter(ip, rec, hv):
+            continue
+        bounds = None
+        for bst, cur in rec['backs']:
+            bs = {f[3] for f in bst.pc if f not in base and f not in bst.safety and f[0] == 'cmp' and f[1] == 'lt' and f[2] == hv and hi not in insts_of(f[3])}
+            bounds = bs if bounds is None else bounds & bs
+        if bounds and len(bounds) == 1 and isinstance(ev, tuple) and hi not in insts_of(ev):
+            B = next(iter(bounds))
+            return hv, ('range', ev, B), ev, B
     return None
 
 
@@ -97,7 +111,7 @@ def summarise_loop(ip, pc, rec, exits, safety=()):
     ld = loop_domain(ip, rec)
     if ld is None:
         return None
-    P, dom, e0 = ld
+    P, dom, e0, _end = ld
     counters = {hv: ev for hv, ev in rec['mapping'] if hv[0] == 'var' and T.TYPES.get(hv) in ('usize', 'u32', 'u64', 'i32', 'isize') and is_counter(ip, rec, hv)}
     K = T.var('k#L%d_%d' % hi, 'usize')
     sigma = {}
@@ -174,7 +188,7 @@ def loop_frame(ip, rec, exits):
     ld = loop_domain(ip, rec)
     if ld is None:
         return None
-    P, dom, e0 = ld
+    P, dom, e0, end = ld
     counters = {hv: ev for hv, ev in rec['mapping'] if hv[0] == 'var' and T.TYPES.get(hv) in ('usize', 'u32', 'u64', 'i32', 'isize') and is_counter(ip, rec, hv)}
     K = T.var('k#L%d_%d' % (rec['head'], rec['inst']), 'usize')
     sigma = {c: (K if c == P else T.mk_add(ev, T.mk_sub(K, e0))) for c, ev in counters.items()}
@@ -183,7 +197,7 @@ def loop_frame(ip, rec, exits):
     if not ex or fn is None:
         return None
     chain, callees, sw = fn.loop_test(rec['head'])
-    return P, dom, e0, counters, K, sigma, (sw is not None and ex[-1][2] == sw)
+    return P, dom, e0, counters, K, sigma, (sw is not None and ex[-1][2] == sw), end
 
 
 def closed_values(ip, rec, exits):
@@ -192,20 +206,42 @@ def closed_values(ip, rec, exits):
        vector V with  V'[k] = t(k)  (k the position, V of the domain's length on entry)         ->  map(dom, k, t(k))
        scalar A  with  A' = b(A, k)  on every back edge                                         ->  fold(dom, entry, a, k, b(a, k))
     Only when the loop was left by its own test; {} otherwise."""
+    if not rec['backs']:
+        # the body cannot be completed even once on this path condition: everything the loop carries has its entry value
+        hi0 = (rec['head'], rec['inst'])
+        out0 = {V: (entry, None) for V, (entry, loc) in rec.get('vec_heads', {}).items() if isinstance(entry, tuple) and hi0 not in insts_of(entry)}
+        out0.update({hv: (ev, None) for hv, ev in rec['mapping'] if hv[0] == 'var' and isinstance(ev, tuple) and hi0 not in insts_of(ev)})
+        return out0
     fr = loop_frame(ip, rec, exits)
     if fr is None:
         return {}
-    P, dom, e0, counters, K, sigma, by_test = fr
-    if not by_test or not rec['backs']:
+    P, dom, e0, counters, K, sigma, by_test, end = fr
+    if not by_test:
+        return {}
+    if not rec['backs']:
         return {}
     hi = (rec['head'], rec['inst'])
     out = {}
-    n_dom = T.mk_sub(ip.iter_heads[P].end, e0)
+    n_dom = T.mk_sub(end, e0)
     # element-wise definitions number the elements from 0 (the convention of the `collect` summary): position = e0 + k
     sigma_abs = sigma
     sigma = {c: T.mk_add(ev, K) for c, ev in counters.items()}
     base = set(rec['snapshot'].pc)
+    # what the loop carries but never changes still has its entry value
+    same = {}
     for V, (entry, loc) in rec.get('vec_heads', {}).items():
+        if isinstance(entry, tuple) and hi not in insts_of(entry) and all(cur.get(V) == V for bst, cur in rec['backs']):
+            same[V] = entry
+    for hv, ev in rec['mapping']:
+        if hv[0] == 'var' and hv not in counters and isinstance(ev, tuple) and hi not in insts_of(ev) and all(cur.get(hv) == hv for bst, cur in rec['backs']):
+            same[hv] = ev
+    for V, t in same.items():
+        out[V] = (t, None)
+    sigma = dict(list(sigma.items()) + list(same.items()))
+    sigma_abs = dict(list(sigma_abs.items()) + list(same.items()))
+    for V, (entry, loc) in rec.get('vec_heads', {}).items():
+        if V in same:
+            continue
         ts = set()
         kind = None
         keeps = []
@@ -262,7 +298,11 @@ def closed_values(ip, rec, exits):
         if kind == 'push':
             if entry == ('list', ()):
                 out[V] = (m, n_dom)
-            # a non-empty start is left alone (no concatenation term in the algebra)
+            elif body[0] == 'elem' and body[2] == T.mk_add(e0, K) and hi not in insts_of(body[1]):
+                # the elements of a sequence appended one by one, in order: the slice itself appended
+                parts = entry[1] if entry[0] == 'list' else (('slice', entry, T.I(0), T.typed(('len', entry), 'usize')),)
+                out[V] = (('list', tuple(parts) + (('slice', body[1], e0, end),)), None)
+            # any other non-empty start is left alone (no concatenation term in the algebra)
         else:
             # every slot written exactly once: the vector had the domain's length on entry (index writes keep it)
             snap = rec['snapshot']
@@ -332,9 +372,19 @@ def rewrite_state(st, sub):
             rc(v.cell)
             return v
         if isinstance(v, X.Sym):
-            return X.Sym(rt(v.term), v.ty, {k: rv(x) for k, x in v.over.items()}, v.variant, v.wr)
+            nt = rt(v.term)
+            if isinstance(nt, tuple) and nt and nt[0] == 'list' and not v.over:
+                return X.ListV(list(nt[1]))
+            return X.Sym(nt, v.ty, {k: rv(x) for k, x in v.over.items()}, v.variant, v.wr)
         if isinstance(v, X.ListV):
-            return X.ListV([tuple(rt(x) if isinstance(x, tuple) else x for x in p) for p in v.parts])
+            parts = []
+            for p in v.parts:
+                q = tuple(rt(x) if isinstance(x, tuple) else x for x in p)
+                if q[0] == 'slice' and isinstance(q[1], tuple) and q[1] and q[1][0] == 'list' and q[2] == T.I(0):
+                    parts.extend(q[1][1])      # the whole of a list that now has a closed form: its parts
+                else:
+                    parts.append(q)
+            return X.ListV(parts)
         if isinstance(v, X.Clo):
             return X.Clo(v.path, [rv(x) for x in v.upvars])
         if isinstance(v, X.Uninit):
